@@ -5,6 +5,7 @@ package c16
 import (
 	"context"
 	"encoding/json"
+	"fmt"
 	"reflect"
 	"sort"
 	"strings"
@@ -250,6 +251,10 @@ func shadowTool() goTool {
 }
 
 var goTools = map[string]goTool{}
+
+// goUndocumentedIn: members whose In type the AddTool documentation does not promise to accept
+// ("The In type argument must be a map or a struct").
+var goUndocumentedIn = map[string]bool{"ptrin": true}
 var goToolNames, goToolWeighted []string
 
 func addGo(t goTool) { goTools[t.name] = t }
@@ -319,7 +324,18 @@ func goPublished() (map[string]pubSchemas, error) {
 		server := mcp.NewServer(&mcp.Implementation{Name: "c16-schemas", Version: "1"}, nil)
 		env := &caseEnv{}
 		for _, n := range goToolNames {
-			goTools[n].reg(server, env, n)
+			func() {
+				defer func() {
+					// a refused member with an undocumented In type is simply not in the family (see goUndocumentedIn)
+					if r := recover(); r != nil && !goUndocumentedIn[n] {
+						goPubErr = fmt.Errorf("AddTool panicked for family member %q: %v", n, r)
+					}
+				}()
+				goTools[n].reg(server, env, n)
+			}()
+		}
+		if goPubErr != nil {
+			return
 		}
 		st, ct := mcp.NewInMemoryTransports()
 		ss, err := server.Connect(ctx, st, nil)
